@@ -6,7 +6,9 @@ list (pkg/evmclient/evmclient.go:224-253, waitForTxn).
 Waiters are registered per (nonce, hash) under the monitor's mutex (`watchTx`); `check` takes a
 snapshot of the rows below the confirmed nonce, asks the chain node for their receipts in
 batches, and for every answered element calls `notify` (under the mutex: send the result to every
-waiter of the row, close their channels, delete the row).  "No receipt" for a row below the
+waiter of the row, close their channels, delete the row).  The client's own waiter (`waitForTxn`)
+deletes the entry of a mined transaction and flags the entry of a replaced one (`cancelled`);
+`WaitForReceipt` answers a flagged entry at once and rejects a hash without entry.  "No receipt" for a row below the
 confirmed nonce means the transaction was replaced: `cancelled`.  Shutdown cancels the base
 context; the watch loop's deferred drain (under the mutex) sends `closed` to every remaining
 waiter, closes the channels and empties the table; `watchTx` refuses new waiters once shutdown
@@ -46,9 +48,10 @@ structure St where
   submitted : List (Nat × Nat)         -- ghost: everything the client ever sent
   keys : List (Nat × Nat)              -- every (nonce, hash) that ever had a row (to enumerate the table)
   nextId : Nat
+  cancelledSeen : List Nat             -- hashes whose sentTxs entry carries the `cancelled` flag (kept, not pending)
 
 def init : St :=
-  ⟨fun _ _ => [], fun _ => none, [], [], false, false, false, [], [], [], 0⟩
+  ⟨fun _ _ => [], fun _ => none, [], [], false, false, false, [], [], [], 0, []⟩
 
 inductive Op where
   | send (nonce hash : Nat)                  -- client submitted a tx: pending entry + internal waiter
@@ -63,6 +66,8 @@ inductive Out where
   | none
   | waiter (id : Nat)
   | refused                                  -- watch after shutdown began: "monitor closed"
+  | lateCancelled                            -- WaitForReceipt on an entry already flagged cancelled: answered at once
+  | unknownTx                                -- WaitForReceipt on a hash the client no longer tracks: "tx not found"
   deriving Repr, DecidableEq
 
 def deliveredIds (s : St) : List Nat := s.delivered.map (·.1)
@@ -90,9 +95,15 @@ def notify (s : St) (n h : Nat) (o : Outcome) (c : Nat) : St :=
 
 def step (s : St) : Op → St × Out
   | .send n h =>
-    let s1 := { s with pending := (h, n) :: s.pending, submitted := (h, n) :: s.submitted }
+    -- `c.sentTxs[hash] = txnDetails{nonce, created}`: a fresh entry, flag clear
+    let s1 := { s with pending := (h, n) :: s.pending, submitted := (h, n) :: s.submitted,
+                       cancelledSeen := s.cancelledSeen.filter (fun x => x ≠ h) }
     addWaiter s1 n h true
-  | .watch n h => addWaiter s n h false
+  | .watch n h =>
+    -- WaitForReceipt: look the hash up in sentTxs first, then register with the monitor
+    if s.cancelledSeen.contains h then (s, .lateCancelled)
+    else if !(s.pending.any (fun p => p.1 = h)) then (s, .unknownTx)
+    else addWaiter s n h false
   | .reply c n h a =>
     if ¬ (n < c) then (s, .none)             -- only rows below the snapshot's confirmed nonce are queried
     else match a with
@@ -110,7 +121,10 @@ def step (s : St) : Op → St × Out
   | .observe w =>
     match s.info w, s.delivered.find? (fun d => d.1 = w) with
     | some i, some (_, o) =>
-      if i.internal ∧ o ≠ .closed then ({ s with pending := s.pending.filter (fun p => p.1 ≠ i.hash) }, .none)
+      -- mined: the entry is deleted; replaced: the entry is flagged and leaves the pending view
+      if i.internal ∧ o ≠ .closed then
+        ({ s with pending := s.pending.filter (fun p => p.1 ≠ i.hash),
+                  cancelledSeen := if o = .cancelled then i.hash :: s.cancelledSeen else s.cancelledSeen }, .none)
       else (s, .none)
     | _, _ => (s, .none)
 
